@@ -20,6 +20,9 @@ type MergeCase struct {
 	World  *world.World `json:"world"`
 	Order  []int        `json:"order"`
 	Merger string       `json:"merger"`
+	// Warmup: a merger run on the same inputs in the same order immediately before (its result is discarded): one process
+	// can build several gateways over the same services, e.g. a public one hiding node and an internal one
+	Warmup string `json:"warmup,omitempty"`
 	// Ops: operations valid against one service (index, query) to be validated against the merged schema
 	Ops []ServiceOp `json:"ops,omitempty"`
 }
@@ -58,6 +61,9 @@ func runMerge(w *world.World, order []int, mergerName string) (res *merger.Merge
 }
 
 func checkC03(c *MergeCase) *ev.Failure {
+	if c.Warmup != "" {
+		runMerge(c.World, c.Order, c.Warmup)
+	}
 	res, err, pan := runMerge(c.World, c.Order, c.Merger)
 	if pan != "" {
 		return ev.Failf("panic", "Merge panicked on a mergeable world: %s", pan)
@@ -137,7 +143,7 @@ func genMergeCase(t *rapid.T, withOps bool) (*MergeCase, *world.Model) {
 		if b >= a {
 			b++
 		}
-		kind := rapid.SampledFrom([]string{"neutralDisjoint", "neutralDisjoint", "neutralIdentical", "neutralEnumExtend"}).Draw(t, "nkind")
+		kind := rapid.SampledFrom([]string{"neutralDisjoint", "neutralDisjoint", "neutralIdentical", "neutralEnumExtend", "neutralStubInterface"}).Draw(t, "nkind")
 		applyEdit(kind, sdls, a, b, -1)
 		for i := range w.Services {
 			w.Services[i].SDL = sdls[i]
@@ -149,6 +155,9 @@ func genMergeCase(t *rapid.T, withOps bool) (*MergeCase, *world.Model) {
 	c := &MergeCase{World: w, Order: genOrder(t, m.NServices), Merger: "extend"}
 	if rapid.IntRange(0, 3).Draw(t, "sanitize") == 0 {
 		c.Merger = "sanitize"
+	}
+	if rapid.IntRange(0, 2).Draw(t, "warmup") == 0 {
+		c.Warmup = rapid.SampledFrom([]string{"sanitize", "sanitize", "extend"}).Draw(t, "warmupMerger")
 	}
 	if withOps {
 		schemas, err := w.ServiceSchemas()
